@@ -269,8 +269,16 @@ def check_invariants(graph, ever_nodes=(), ever_attackers=(), ever_names=()):
     return None
 
 
-def check_compromise_symmetry(graph, ever_attackers=(), removed=None):
-    """C11 relation symmetry, identity based, over present and removed attackers"""
+def check_compromise_symmetry(graph, ever_attackers=(), removed=None, ever_nodes=()):
+    """C11 relation symmetry, identity based, over present and removed attackers (and node objects that left the graph)"""
+    live = {id(n) for n in graph.nodes}
+    for n in ever_nodes:
+        if id(n) in live:
+            continue
+        for a in n.compromised_by:
+            if not any(x is n for x in a.reached_attack_steps):
+                return ('compromise:asymmetric-compromised-not-reached:node-that-left-the-graph',
+                        'node %s was removed from the graph and still lists attacker %s(%s), who does not list the node as reached' % (n.full_name, a.name, a.id))
     atts = {id(a): a for a in list(graph.attackers) + list(ever_attackers)}
     for a in atts.values():
         seen = set()
